@@ -105,6 +105,11 @@ namespace
         {
             auto& key = arr->at(0);
             auto& value = arr->at(1);
+            if (reaches_container(key, data.get()) || reaches_container(value, data.get()))
+            { // The hashmap would contain itself
+                runtime.__logmsg(err::ArrayRecursion(runtime.context_active().current_frame().diag_info_from_position()));
+                return {};
+            }
             // ToDo: Check key-type matches
             insert_or_assign(data->map(), key, value);
         }
